@@ -91,6 +91,9 @@ func (p Package) Lookup(name string) Declaration {
 func (p Package) LookupFunc(f LookupFunc) error {
 	var err error
 	for n, d := range p.Declarations {
+		if d == nil {
+			continue
+		}
 		if err = f(n, d); err != nil {
 			break
 		}
@@ -135,6 +138,9 @@ func (packages CombinedPackage) LookupFunc(f LookupFunc) error {
 	var err error
 	names := map[string]struct{}{}
 	w := func(name string, decl Declaration) error {
+		if decl == nil {
+			return nil
+		}
 		if _, ok := names[name]; !ok {
 			err = f(name, decl)
 			names[name] = struct{}{}
